@@ -98,16 +98,33 @@ struct Run {
 			std::printf("posit %u %u told %llx => %x %llx %llx\n", nbits, es, (unsigned long long)a, se, (unsigned long long)m, (unsigned long long)enc(back));
 		}
 		if (!pa.isnar()) {
-			long double v = (long double)pa;   // only to decide whether the cast below is defined behaviour
-			// the library computes int(to_double()): when the posit has more than 52 fraction bits the double may round to
-			// +-2^31 / 2^32 although the value fits, and the cast is then undefined behaviour (part of finding D23): such
-			// operands are not executed
-			const double dv = (double)v;
-			if (v > -2147483648.0L && v < 2147483648.0L && dv > -2147483649.0 && dv < 2147483648.0) std::printf("posit %u %u toi i32 %llx => %llx\n", nbits, es, (unsigned long long)a, (unsigned long long)(long long)int(pa));
-			if (v > -9.0e18L && v < 9.0e18L) std::printf("posit %u %u toi i64 %llx => %llx\n", nbits, es, (unsigned long long)a, (unsigned long long)(long long)(pa));
-			if (v > -1.0L && v < 4294967296.0L && dv > -1.0 && dv < 4294967296.0) std::printf("posit %u %u toi u32 %llx => %llx\n", nbits, es, (unsigned long long)a, (unsigned long long)(unsigned int)(pa));
-			if (v > -1.0L && v < 1.8e19L) std::printf("posit %u %u toi u64 %llx => %llx\n", nbits, es, (unsigned long long)a, (unsigned long long)(unsigned long long)(pa));
+			// to_short() ... to_ulong_long() compute the integer from the decoded fields (to_integer<Int>, repair of D23): every
+			// real-valued operand is defined behaviour (saturation outside the type's range, negative values wrap into unsigned
+			// types); the driver judges the line only when the exact value fits the type
+			std::printf("posit %u %u toi i16 %llx => %llx\n", nbits, es, (unsigned long long)a, (unsigned long long)(long long)short(pa));
+			std::printf("posit %u %u toi u16 %llx => %llx\n", nbits, es, (unsigned long long)a, (unsigned long long)(unsigned short)(pa));
+			std::printf("posit %u %u toi i32 %llx => %llx\n", nbits, es, (unsigned long long)a, (unsigned long long)(long long)int(pa));
+			std::printf("posit %u %u toi i64 %llx => %llx\n", nbits, es, (unsigned long long)a, (unsigned long long)(long long)(pa));
+			std::printf("posit %u %u toi u32 %llx => %llx\n", nbits, es, (unsigned long long)a, (unsigned long long)(unsigned int)(pa));
+			std::printf("posit %u %u toi u64 %llx => %llx\n", nbits, es, (unsigned long long)a, (unsigned long long)(unsigned long long)(pa));
 		}
+	}
+	// encodings at, just below and just above integers (k +- 1, 2 posit ulps; |v| < 1 next to +-1): the integer part must come from
+	// the exact value — with more than 52 (23) fraction bits a detour through double (float) rounds across the integer
+	static void near_integers(uv::Rng& g, unsigned randoms) {
+		const uint64_t M = uv::mask(nbits);
+		auto at = [&](long long k) {
+			P p; p = k;
+			for (int sgn = 0; sgn < 2; ++sgn) {
+				uint64_t y = sgn ? ((~enc(p) + 1) & M) : enc(p);
+				for (int d = -2; d <= 2; ++d) to_native((y + (uint64_t)(int64_t)d) & M);
+			}
+		};
+		const long long ks[] = { 1, 2, 3, 4, 7, 8, 127, 128, 255, 256, 32767, 32768, 32769, 65535, 65536, 65537, (1ll << 24) - 1, 1ll << 24, (1ll << 24) + 1,
+			(1ll << 31) - 2, (1ll << 31) - 1, 1ll << 31, (1ll << 31) + 1, (1ll << 32) - 2, (1ll << 32) - 1, 1ll << 32, (1ll << 32) + 1,
+			(1ll << 53) - 1, 1ll << 53, (1ll << 53) + 1, 1ll << 62, (1ll << 62) + (1ll << 40), 0x7fffffffffffffffll };
+		for (long long k : ks) at(k);
+		for (unsigned i = 0; i < randoms; ++i) at((long long)((g.next() >> 1) >> g.below(63)) | 1ll);
 	}
 	// sources generated FROM the target lattice: the value itself, the (n+1)-bit midpoint above it, +-1 source ulp around both
 	static void around(long double v) {
@@ -159,6 +176,7 @@ struct Run {
 		uv::Rng g(uv::seed_from_env() * 2654435761ull + nbits * 131ull + es);
 		if (all) { for (uint64_t y = 0; y < (1ull << (nbits < 63 ? nbits : 1)); ++y) conv_target(y); conv_fixed(g, 2000); }
 		else { conv_fixed(g, (unsigned)(count / 8)); for (uint64_t i = 0; i < count * (g_from ? 1 : 20); ++i) conv_target(operand(g)); }
+		if (g_to) near_integers(g, all ? 50 : (unsigned)(count / 4));
 	}
 	// re-execute the inputs of one recorded transcript line (replay / corpus): toks = op and operands
 	static void replay(const std::vector<std::string>& t) {
